@@ -190,11 +190,7 @@ func (s *OutlineServer) runConfig(config Config) (func() error, error) {
 			manager:            s.lnManager,
 			listenerCloseFuncs: make(map[string]func() error),
 		}
-		defer func() {
-			stopErrCh <- lnSet.Close()
-		}()
-
-		startErrCh <- func() error {
+		startErr := func() error {
 			totalCipherCount := len(config.Keys)
 			portCiphers := make(map[int]*list.List) // Values are *List of *CipherEntry.
 			for _, keyConfig := range config.Keys {
@@ -281,8 +277,20 @@ func (s *OutlineServer) runConfig(config Config) (func() error, error) {
 			s.serverMetrics.SetNumAccessKeys(totalCipherCount, lnSet.Len())
 			return nil
 		}()
+		if startErr != nil {
+			// No stop function is returned for a config that failed to start, so release here
+			// what it acquired before it failed. Otherwise its listeners stay up, with its keys,
+			// next to the previous config.
+			if err := lnSet.Close(); err != nil {
+				slog.Warn("Failed to stop partially started config.", "err", err)
+			}
+			startErrCh <- startErr
+			return
+		}
+		startErrCh <- nil
 
 		<-stopCh
+		stopErrCh <- lnSet.Close()
 	}()
 
 	err := <-startErrCh
